@@ -180,6 +180,16 @@ def observe(run, B=None):
                     allpts[p] = i + 1
         if allpts:
             plist = list(allpts)
+            # a read-only accessor asked for ONE component grid before the interpolation (what a user who inspects a grid does): it must not
+            # leave anything behind that changes the interpolant
+            try:
+                with impl.quiet(), impl.watchdog(60):
+                    gsel = c.scheme[len(objs) % len(c.scheme)]
+                    c.get_points_component_grid(gsel.levelvector)
+            except impl.Timeout:
+                raise
+            except Exception as ex:
+                detail['accessor'] = repr(ex)
             with impl.quiet(), impl.watchdog(180):
                 vals = np.asarray(c(plist), dtype=float)
             ref = np.asarray(run.f.eval_vectorized(np.asarray(plist)), dtype=float)[:, 0]
